@@ -226,7 +226,7 @@ Proof.
   - reflexivity.
   - simpl. rewrite read_gmap. destruct (read t lit); reflexivity.
   - destruct s as [|v s]; [reflexivity|]. destruct v; try reflexivity.
-    simpl. rewrite read_gmap. destruct (read t m); reflexivity.
+    simpl. rewrite read_gmap, anon_tmap. destruct (read t m); reflexivity.
   - destruct s as [|v s]; [reflexivity|]. destruct v; try reflexivity.
     change (map g (GPair a v1 v2 :: s)) with (g (GPair a v1 v2) :: map g s).
     change (step (f d) (imap f (IGet n)) (g (GPair a v1 v2) :: map g s))
@@ -264,7 +264,7 @@ Proof.
   - destruct s as [|x [|y s]]; reflexivity.
   - destruct s as [|v s]; reflexivity.
   - destruct s as [|v s]; reflexivity.
-  - reflexivity.
+  - change (step (f d) (imap f (INone t)) (map g s)) with (Ok (GNone (f d) (anon (f d) (tmap f t)) :: map g s)). rewrite anon_tmap. reflexivity.
   - destruct s as [|v s]; reflexivity.
   - destruct s as [|v s]; reflexivity.
   - reflexivity.
